@@ -19,6 +19,7 @@ type c04Ev struct {
 	flow string
 	key  string
 	resp bool
+	txn  string
 }
 
 // c04World is the observation point: every processor execution is appended to trace.
@@ -27,6 +28,7 @@ type c04World struct {
 	out   map[string]string // processor key -> output condition (symbolic)
 	early map[string]bool   // processor key -> answers the request itself
 	limit int               // C05: bound on executions (0 = none)
+	useTxnCtx bool          // C18: processors keep per-transaction state in the transactional context
 }
 
 type c04Proc struct {
@@ -40,9 +42,22 @@ func (p *c04Proc) GetRequirement() *streamtypes.ProcessorRequirement {
 }
 
 func (p *c04Proc) Execute(flowName string, s publictypes.APIStreamI) (streamtypes.ProcessorIO, error) {
-	p.w.trace = append(p.w.trace, c04Ev{flow: flowName, key: p.key, resp: s.GetType().IsResponseType()})
+	p.w.trace = append(p.w.trace, c04Ev{flow: flowName, key: p.key, resp: s.GetType().IsResponseType(), txn: s.GetID()})
 	if p.w.limit > 0 {
 		verifAssert(len(p.w.trace) <= p.w.limit, "more processor executions than the bound for an accepted configuration")
+	}
+	if p.w.useTxnCtx {
+		// per-transaction state through the public LunarContextI: stored by the first processor of
+		// the flow, read back by the next one
+		ctx := s.GetContext().GetTransactionalContext()
+		if p.key == "u0" {
+			_ = ctx.Set("owner", s.GetID())
+			verifYield()
+		} else {
+			v, err := ctx.Get("owner")
+			verifAssert(err == nil && v == s.GetID(),
+				"per-transaction state of a running transaction was cleared or overwritten by another transaction")
+		}
 	}
 	if p.w.early[p.key] && s.GetType().IsRequestType() {
 		return streamtypes.ProcessorIO{
